@@ -296,7 +296,11 @@ class Input(object):
                 self.script_type = script.script_types[0]
         if self.locking_script and not self.signatures:
             ls = Script.parse_bytes(self.locking_script, is_locking=True, strict=strict)
-            self.public_hash = self.public_hash if not ls.public_hash else ls.public_hash
+            # For a P2SH nested segwit input the hash in the locking script is the hash of the redeemscript (the witness
+            # program), not the key hash or witness script hash this input needs
+            if ls.public_hash and not (ls.script_types[0] == 'p2sh' and
+                                       self.script_type in ['p2sh_p2wpkh', 'p2sh_p2wsh']):
+                self.public_hash = ls.public_hash
             if ls.script_types[0] in ['p2wpkh', 'p2wsh']:
                 self.witness_type = 'segwit'
         self.sigs_required = sigs_required if sigs_required else 1
